@@ -100,8 +100,9 @@ def gen_arg(rng, kind):
         return gen_word(rng, kind)
     if kind.startswith("sh_"):     # shift amount carried by a word type
         return rng.choice(SHIFTS) if rng.chance(2, 3) else rng.below(260)
-    if kind.startswith("e_"):      # small exponent carried by a word type
-        return rng.choice([0, 1, 2, 3, 5, 8, 16, 17, 31, 33]) if rng.chance(2, 3) else rng.below(40)
+    if kind.startswith("e_"):      # small exponent carried by a word type; a signed type also carries negative ones (pow(n, l) = n^|l|)
+        v = rng.choice([0, 1, 2, 3, 5, 8, 16, 17, 31, 33]) if rng.chance(2, 3) else rng.below(40)
+        return -v if RANGE[kind[2:]][0] < 0 and rng.chance(1, 3) else v
     if kind == "d":
         return gen_double(rng)
     if kind == "f":
@@ -221,7 +222,7 @@ def special_list(kind, small=False):
         lo, hi = RANGE[kind[3:]]
         return [0, 1, 2, 3, hi, hi - 1] + ([-1, -2, lo, lo + 1] if lo < 0 else [])
     if kind.startswith("e_"):
-        return [0, 1, 2, 3, 5]
+        return [0, 1, 2, 3, 5] + ([-1, -2, -3, -5] if RANGE[kind[2:]][0] < 0 else [])
     if kind.startswith("sh_"):
         return [0, 1, 31, 32, 33, 63, 64, 65]
     if kind == "idx":
